@@ -7,8 +7,9 @@ open Tak (Err)
 
 variable {P M : Type}
 
-/-- the engine has no transposition table -/
-def NT (s : Eng M) : Prop := s.hasTable = false
+/-- the engine has no transposition table; `D` is the (never written) `Depth` field of the running statistics,
+whose `Canceled` field is never written either -/
+def NT (D : Int) (s : Eng M) : Prop := s.hasTable = false ∧ (s.st.depth = D ∧ s.st.canceled = false)
 
 /-- the cancel flag is never set during the call -/
 def NoCancel (o : Oracle M) : Prop := ∀ l e, o.cancel l e = false
@@ -68,34 +69,34 @@ theorem negamax_succ (g : Game P M) (d : Nat) (p : P) (h : g.over p = false) :
 def Attains (g : Game P M) (p : P) (d : Nat) (r : Res M) : Prop :=
   ∃ m rest c, r.1 = some (m :: rest) ∧ g.apply p m = .ok c ∧ r.2 = -(negamax g (d - 1) c)
 
-def PvPost (g : Game P M) (p : P) (d : Nat) (α β : Int) (x : Res M × Eng M) : Prop :=
-  NT x.2 ∧ PC x.1.2 (negamax g d p) α β ∧
+def PvPost (g : Game P M) (D : Int) (p : P) (d : Nat) (α β : Int) (x : Res M × Eng M) : Prop :=
+  NT D x.2 ∧ PC x.1.2 (negamax g d p) α β ∧
   (1 ≤ d → g.over p = false → α < x.1.2 → x.1.2 < β → Attains g p d x.1)
 
-def ZwPost (g : Game P M) (p : P) (d : Nat) (α : Int) (x : Res M × Eng M) : Prop :=
-  NT x.2 ∧ ZC x.1.2 (negamax g d p) α
+def ZwPost (g : Game P M) (D : Int) (p : P) (d : Nat) (α : Int) (x : Res M × Eng M) : Prop :=
+  NT D x.2 ∧ ZC x.1.2 (negamax g d p) α
 
 /-- contract of a `pvSearch`-like function -/
 def PvOK (g : Game P M) (f : PvFn P M) : Prop :=
-  ∀ p ply depth pv α β s, NT s → α < β → Live g depth.toNat p →
-    Sat (f p ply depth pv α β s) (PvPost g p depth.toNat α β)
+  ∀ D p ply depth pv α β s, NT D s → α < β → Live g depth.toNat p →
+    Sat (f p ply depth pv α β s) (PvPost g D p depth.toNat α β)
 
 /-- contract of a `zwSearch`-like function -/
 def ZwOK (g : Game P M) (f : ZwFn P M) : Prop :=
-  ∀ p ply depth pv α cut s, NT s → Live g depth.toNat p →
-    Sat (f p ply depth pv α cut s) (ZwPost g p depth.toNat α)
+  ∀ D p ply depth pv α cut s, NT D s → Live g depth.toNat p →
+    Sat (f p ply depth pv α cut s) (ZwPost g D p depth.toNat α)
 
 /-! ### small facts about the state operations -/
 
-theorem ttGet_nt {s : Eng M} (h : NT s) (k : H) : ttGet s k = .ok none := by
-  unfold ttGet; unfold NT at h; simp [h]
+theorem ttGet_nt {D : Int} {s : Eng M} (h : NT D s) (k : H) : ttGet s k = .ok none := by
+  unfold ttGet; simp [h.1]
 
-theorem ttProbe_nt (g : Game P M) (p : P) (ply : Nat) (depth α β : Int) {s : Eng M} (h : NT s) :
+theorem ttProbe_nt (g : Game P M) (p : P) (ply : Nat) (depth α β : Int) {D : Int} {s : Eng M} (h : NT D s) :
     ttProbe g p ply depth α β s = .ok (.inr none, s) := by
   unfold ttProbe; rw [ttGet_nt h]
 
-theorem ttPut_nt (o : Oracle M) {s : Eng M} (h : NT s) (k : H) : ttPut o s k = .ok (none, s) := by
-  unfold ttPut; unfold NT at h; simp [h]
+theorem ttPut_nt (o : Oracle M) {D : Int} {s : Eng M} (h : NT D s) (k : H) : ttPut o s k = .ok (none, s) := by
+  unfold ttPut; simp [h.1]
 
 theorem load_nc {o : Oracle M} (h : NoCancel o) (s : Eng M) : load o s = (false, { s with loads := s.loads + 1 }) := by
   unfold load; rw [h]
@@ -104,39 +105,49 @@ theorem afterChild_nc {σ : Type} {o : Oracle M} (h : NoCancel o) (a : σ) (s : 
     afterChild o a s = (.next a, { s with loads := s.loads + 1 }) := by
   unfold afterChild; rw [load_nc h]; rfl
 
-theorem recordCut_nt [DecidableEq M] {s : Eng M} (h : NT s) (m : M) (mv ply : Nat) :
-    Sat (recordCut s m mv ply) (fun s' => NT s') := by
+theorem ite_depth (c : Prop) [Decidable c] (a b : Stats) (D : Int)
+    (ha : a.depth = D ∧ a.canceled = false) (hb : b.depth = D ∧ b.canceled = false) :
+    (if c then a else b).depth = D ∧ (if c then a else b).canceled = false := by
+  split <;> assumption
+
+theorem recordCut_nt [DecidableEq M] {D : Int} {s : Eng M} (h : NT D s) (m : M) (mv ply : Nat) :
+    Sat (recordCut s m mv ply) (fun s' => NT D s') := by
   unfold recordCut
   simp only []
+  have hd : ∀ (x y z : Stats), (x.depth = D ∧ x.canceled = false) → (y.depth = D ∧ y.canceled = false) →
+      (z.depth = D ∧ z.canceled = false) →
+      (if (mv == 1) = true then x else if (mv == 2) = true then y else z).depth = D ∧
+      (if (mv == 1) = true then x else if (mv == 2) = true then y else z).canceled = false :=
+    fun x y z hx hy hz => ite_depth _ _ _ _ hx (ite_depth _ _ _ _ hy hz)
   split
   · split
     · exact Sat.error
-    · exact Sat.ok h
-  · exact Sat.ok h
+    · exact Sat.ok ⟨h.1, hd _ _ _ h.2 h.2 h.2⟩
+  · exact Sat.ok ⟨h.1, hd _ _ _ h.2 h.2 h.2⟩
 
-theorem leaf_nt (g : Game P M) (p : P) (over : Bool) {s : Eng M} (h : NT s) :
-    NT (leaf g p over s).2 ∧ (leaf g p over s).1.2 = g.eval p := by
-  unfold leaf; exact ⟨h, rfl⟩
+theorem leaf_nt (g : Game P M) (p : P) (over : Bool) {D : Int} {s : Eng M} (h : NT D s) :
+    NT D (leaf g p over s).2 ∧ (leaf g p over s).1.2 = g.eval p := by
+  unfold leaf; exact ⟨⟨h.1, ite_depth _ _ _ _ h.2 h.2⟩, rfl⟩
 
 
 /-! ### one child of a PV node (the prototype's `childVal`) -/
 
 theorem pvChild_spec {g : Game P M} {cpv : PvFn P M} {czw : ZwFn P M} (hp : PvOK g cpv) (hz : ZwOK g czw)
-    (i : Nat) (child : P) (ply : Nat) (depth : Int) (tail : List M) (α β : Int) (s : Eng M)
-    (hs : NT s) (hab : α < β) (hl : Live g (depth - 1).toNat child) :
+    (i : Nat) (child : P) (ply : Nat) (depth : Int) (tail : List M) (α β : Int) (D : Int) (s : Eng M)
+    (hs : NT D s) (hab : α < β) (hl : Live g (depth - 1).toNat child) :
     Sat (pvChild cpv czw i child ply depth tail α β s)
-      (fun x => NT x.2 ∧ PC (-x.1.2) (-(negamax g (depth - 1).toNat child)) α β) := by
+      (fun x => NT D x.2 ∧ PC (-x.1.2) (-(negamax g (depth - 1).toNat child)) α β) := by
   unfold pvChild
   split
   · apply Sat.bind
-    refine (hz child (ply + 1) (depth - 1) tail (-α - 1) true s hs hl).mono ?_
+    refine (hz D child (ply + 1) (depth - 1) tail (-α - 1) true s hs hl).mono ?_
     rintro ⟨⟨ms, v⟩, s'⟩ ⟨hnt, hzc⟩
     simp only [] at hnt hzc ⊢
     unfold ZC at hzc
     split
     · rename_i hcond
       simp only [Bool.and_eq_true, decide_eq_true_eq] at hcond
-      refine (hp child (ply + 1) (depth - 1) tail (-β) (-α)
+      refine (hp D child (ply + 1) (depth - 1) tail (-β) (-α)
         { s' with st := { s'.st with reSearch := s'.st.reSearch + 1 } } hnt (by omega) hl).mono ?_
       rintro ⟨⟨ms2, v2⟩, s2⟩ ⟨hnt2, hpc, _⟩
       simp only [] at hnt2 hpc ⊢
@@ -147,7 +158,7 @@ theorem pvChild_spec {g : Game P M} {cpv : PvFn P M} {czw : ZwFn P M} (hp : PvOK
       apply Sat.pure
       unfold PC
       refine ⟨hnt, ?_, ?_, ?_⟩ <;> intros <;> simp only [] <;> omega
-  · refine (hp child (ply + 1) (depth - 1) tail (-β) (-α) s hs (by omega) hl).mono ?_
+  · refine (hp D child (ply + 1) (depth - 1) tail (-β) (-α) s hs (by omega) hl).mono ?_
     rintro ⟨⟨ms2, v2⟩, s2⟩ ⟨hnt2, hpc, _⟩
     simp only [] at hnt2 hpc ⊢
     unfold PC at hpc ⊢
@@ -158,8 +169,8 @@ theorem pvChild_spec {g : Game P M} {cpv : PvFn P M} {czw : ZwFn P M} (hp : PvOK
 
 /-- invariant of the loop: the running `α` is either still the initial one, or the exact value of the
 legal child whose move heads `best` -/
-def PvInv (g : Game P M) (p : P) (d' : Nat) (α0 β : Int) (a : PvAcc M) (s : Eng M) : Prop :=
-  NT s ∧ a.α < β ∧
+def PvInv (g : Game P M) (D : Int) (p : P) (d' : Nat) (α0 β : Int) (a : PvAcc M) (s : Eng M) : Prop :=
+  NT D s ∧ a.α < β ∧
   ((a.α = α0 ∧ a.improved = false) ∨
    (a.improved = true ∧ α0 < a.α ∧
      ∃ m rest c, a.best = m :: rest ∧ g.apply p m = .ok c ∧ a.α = -(negamax g d' c)))
@@ -168,15 +179,15 @@ def PvInv (g : Game P M) (p : P) (d' : Nat) (α0 β : Int) (a : PvAcc M) (s : En
 def PvCov (g : Game P M) (d' : Nat) (a : PvAcc M) (c : P) : Prop := -(negamax g d' c) ≤ a.α
 
 /-- on a cutoff some legal child really has a value ≥ β -/
-def PvQb (g : Game P M) (p : P) (d' : Nat) (β : Int) (a : PvAcc M) (s : Eng M) : Prop :=
-  NT s ∧ β ≤ a.α ∧ ∃ m c, g.apply p m = .ok c ∧ β ≤ -(negamax g d' c)
+def PvQb (g : Game P M) (D : Int) (p : P) (d' : Nat) (β : Int) (a : PvAcc M) (s : Eng M) : Prop :=
+  NT D s ∧ β ≤ a.α ∧ ∃ m c, g.apply p m = .ok c ∧ β ≤ -(negamax g d' c)
 
 theorem pvBody_ok [DecidableEq M] {g : Game P M} {o : Oracle M} {cpv : PvFn P M} {czw : ZwFn P M}
     (hnc : NoCancel o) (hp : PvOK g cpv) (hz : ZwOK g czw)
-    (p : P) (ply : Nat) (depth α0 β : Int)
+    (D : Int) (p : P) (ply : Nat) (depth α0 β : Int)
     (hl : ∀ m c, g.apply p m = .ok c → Live g (depth - 1).toNat c) :
     BodyOK g p (pvBody g o cpv czw ply depth β false)
-      (PvInv g p (depth - 1).toNat α0 β) (PvCov g (depth - 1).toNat) (PvQb g p (depth - 1).toNat β)
+      (PvInv g D p (depth - 1).toNat α0 β) (PvCov g (depth - 1).toNat) (PvQb g D p (depth - 1).toNat β)
       (fun _ _ => False) := by
   intro m c a s hap hinv
   obtain ⟨hnt, hlt, hdisj⟩ := hinv
@@ -185,7 +196,7 @@ theorem pvBody_ok [DecidableEq M] {g : Game P M} {o : Oracle M} {cpv : PvFn P M}
   apply Sat.bind
   intro sm _
   apply Sat.bind
-  refine (pvChild_spec hp hz (a.i + 1) c ply depth (a.best.drop 1) a.α β { s with stackM := sm } hnt hlt
+  refine (pvChild_spec hp hz (a.i + 1) c ply depth (a.best.drop 1) a.α β D { s with stackM := sm } hnt hlt
     (hl m c hap)).mono ?_
   rintro ⟨⟨ms, v⟩, s'⟩ ⟨hnt', hpc⟩
   simp only [] at hnt' hpc ⊢
@@ -218,12 +229,12 @@ theorem pvBody_ok [DecidableEq M] {g : Game P M} {o : Oracle M} {cpv : PvFn P M}
     intro c' hc'; subst hc'; unfold PvCov; simp only []; omega
 
 
-theorem pvStore_nt (o : Oracle M) (k : H) (depth β : Int) (a : PvAcc M) {s : Eng M} (h : NT s) :
+theorem pvStore_nt (o : Oracle M) (k : H) (depth β : Int) (a : PvAcc M) {D : Int} {s : Eng M} (h : NT D s) :
     pvStore o k depth β a s = .ok ((some a.best, a.α), s) := by
   unfold pvStore; rw [ttPut_nt o h]; rfl
 
-theorem pvInitBest_nt (ply : Nat) (pv : List M) {s : Eng M} (h : NT s) :
-    Sat (pvInitBest ply pv s) (fun x => NT x.2) := by
+theorem pvInitBest_nt (ply : Nat) (pv : List M) {D : Int} {s : Eng M} (h : NT D s) :
+    Sat (pvInitBest ply pv s) (fun x => NT D x.2) := by
   unfold pvInitBest
   split
   · apply Sat.bind; intro pv0 _; exact Sat.pure h
@@ -249,7 +260,7 @@ theorem pvNode_ok [DecidableEq M] {g : Game P M} (hg : GameOK g) {cfg : Cfg} (hp
     {o : Oracle M} (hnc : NoCancel o) (hord : OrderOK o) (frame : Bool)
     {cpv : PvFn P M} {czw : ZwFn P M} (hp : PvOK g cpv) (hz : ZwOK g czw) :
     PvOK g (pvNode g cfg o frame cpv czw) := by
-  intro p ply depth pv α β s hnt hab hlive
+  intro D p ply depth pv α β s hnt hab hlive
   unfold pvNode
   simp only []
   split
@@ -278,17 +289,17 @@ theorem pvNode_ok [DecidableEq M] {g : Game P M} (hg : GameOK g) {cfg : Cfg} (hp
         rw [hpr.dd]; rfl
       obtain ⟨hkne, hlc⟩ := Live.child hg hlive hdpos hov
       apply Sat.bind
-      rw [ttProbe_nt g p ply depth α β (by exact hnt)]
+      rw [ttProbe_nt g p ply depth α β (D := D) (by exact ⟨hnt.1, ite_depth _ _ _ _ hnt.2 hnt.2⟩)]
       apply Sat.ok
       simp only []
       apply Sat.bind
-      refine Sat.mono (pvInitBest_nt ply pv (by exact hnt)) ?_
+      refine Sat.mono (pvInitBest_nt ply pv (D := D) (by exact ⟨hnt.1, ite_depth _ _ _ _ hnt.2 hnt.2⟩)) ?_
       rintro ⟨best, s1⟩ hnt1
       simp only [] at hnt1 ⊢
       apply Sat.bind
       rw [hdd]
-      have hb := pvBody_ok hnc hp hz p ply depth α β hlc
-      have hinv0 : PvInv g p (depth - 1).toNat α β (⟨α, best, false, 0, []⟩ : PvAcc M) s1 :=
+      have hb := pvBody_ok hnc hp hz D p ply depth α β hlc
+      have hinv0 : PvInv g D p (depth - 1).toNat α β (⟨α, best, false, 0, []⟩ : PvAcc M) s1 :=
         ⟨hnt1, hab, Or.inl ⟨rfl, rfl⟩⟩
       refine (iterate_rule hb cfg o ⟨ply, depth, none, pv⟩ (hg.gen p) hord
         (fun a s k hi => ⟨hi.1, hi.2.1, hi.2.2⟩) _ s1 hinv0).mono ?_
@@ -346,26 +357,26 @@ theorem pvNode_ok [DecidableEq M] {g : Game P M} (hg : GameOK g) {cfg : Cfg} (hp
 
 /-! ### zero-window nodes -/
 
-def ZwInv (a : ZwAcc M) (s : Eng M) : Prop := NT s ∧ a.didCut = false
+def ZwInv (D : Int) (a : ZwAcc M) (s : Eng M) : Prop := NT D s ∧ a.didCut = false
 
 def ZwCov (g : Game P M) (d' : Nat) (α : Int) (_a : ZwAcc M) (c : P) : Prop := -(negamax g d' c) ≤ α
 
-def ZwQb (g : Game P M) (p : P) (d' : Nat) (α : Int) (a : ZwAcc M) (s : Eng M) : Prop :=
-  NT s ∧ a.didCut = true ∧ ∃ m c, g.apply p m = .ok c ∧ α < -(negamax g d' c)
+def ZwQb (g : Game P M) (D : Int) (p : P) (d' : Nat) (α : Int) (a : ZwAcc M) (s : Eng M) : Prop :=
+  NT D s ∧ a.didCut = true ∧ ∃ m c, g.apply p m = .ok c ∧ α < -(negamax g d' c)
 
 theorem zwBody_ok [DecidableEq M] {g : Game P M} {o : Oracle M} {czw : ZwFn P M}
     (hnc : NoCancel o) (hz : ZwOK g czw)
-    (p : P) (ply : Nat) (depth α : Int) (cut : Bool)
+    (D : Int) (p : P) (ply : Nat) (depth α : Int) (cut : Bool)
     (hl : ∀ m c, g.apply p m = .ok c → Live g (depth - 1).toNat c) :
     BodyOK g p (zwBody o czw ply depth α cut)
-      ZwInv (ZwCov g (depth - 1).toNat α) (ZwQb g p (depth - 1).toNat α) (fun _ _ => False) := by
+      (ZwInv D) (ZwCov g (depth - 1).toNat α) (ZwQb g D p (depth - 1).toNat α) (fun _ _ => False) := by
   intro m c a s hap hinv
   obtain ⟨hnt, hdc⟩ := hinv
   unfold zwBody
   apply Sat.bind
   intro sm _
   apply Sat.bind
-  refine Sat.mono (hz c (ply + 1) (depth - 1) _ (-α - 1) (!cut) { s with stackM := sm } hnt (hl m c hap)) ?_
+  refine Sat.mono (hz D c (ply + 1) (depth - 1) _ (-α - 1) (!cut) { s with stackM := sm } hnt (hl m c hap)) ?_
   rintro ⟨⟨ms, v⟩, s'⟩ ⟨hnt', hzc⟩
   dsimp only at hnt' hzc ⊢
   unfold ZC at hzc
@@ -385,7 +396,7 @@ theorem zwBody_ok [DecidableEq M] {g : Game P M} {o : Oracle M} {czw : ZwFn P M}
     refine ⟨⟨hnt', hdc⟩, fun c' hc' => hc', ?_⟩
     intro c' hc'; subst hc'; unfold ZwCov; omega
 
-theorem zwStore_nt (o : Oracle M) (k : H) (depth α : Int) (a : ZwAcc M) {s : Eng M} (h : NT s) :
+theorem zwStore_nt (o : Oracle M) (k : H) (depth α : Int) (a : ZwAcc M) {D : Int} {s : Eng M} (h : NT D s) :
     zwStore o k depth α a s = .ok ((some a.best, if a.didCut then α + 1 else α), s) := by
   unfold zwStore; rw [ttPut_nt o h]; rfl
 
@@ -406,7 +417,7 @@ theorem zwNode_ok [DecidableEq M] {g : Game P M} (hg : GameOK g) {cfg : Cfg} (hp
     {o : Oracle M} (hnc : NoCancel o) (hord : OrderOK o) (frame : Bool)
     {czw : ZwFn P M} (hz : ZwOK g czw) :
     ZwOK g (zwNode g cfg o frame czw) := by
-  intro p ply depth pv α cut s hnt hlive
+  intro D p ply depth pv α cut s hnt hlive
   unfold zwNode
   simp only []
   split
@@ -446,7 +457,7 @@ theorem zwNode_ok [DecidableEq M] {g : Game P M} (hg : GameOK g) {cfg : Cfg} (hp
       apply Sat.bind
       intro x _
       apply Sat.bind
-      have hb := zwBody_ok hnc hz p ply depth α cut hlc (o := o)
+      have hb := zwBody_ok hnc hz D p ply depth α cut hlc (o := o)
       refine Sat.mono (iterate_rule hb cfg o ⟨ply, depth, none, pv⟩ (hg.gen p) hord
         (fun a s k hi => ⟨hi.1, hi.2⟩) (⟨[x], 0, false⟩ : ZwAcc M) _ ⟨by exact hnt, rfl⟩) ?_
       rintro ⟨c, s2⟩ hpost
@@ -491,9 +502,9 @@ theorem search_ok [DecidableEq M] {g : Game P M} (hg : GameOK g) {cfg : Cfg} (hp
   induction n with
   | zero =>
     have hze : ZwOK g (fun _ _ _ _ _ _ _ => (.error (.panic "ai.stack[ply]: index out of range") : Except Err (Res M × Eng M))) :=
-      fun _ _ _ _ _ _ _ _ _ => Sat.error
-    have hpe : PvOK g (fun _ _ _ _ _ _ _ => (.error (.panic "ai.stack[ply]: index out of range") : Except Err (Res M × Eng M))) :=
       fun _ _ _ _ _ _ _ _ _ _ => Sat.error
+    have hpe : PvOK g (fun _ _ _ _ _ _ _ => (.error (.panic "ai.stack[ply]: index out of range") : Except Err (Res M × Eng M))) :=
+      fun _ _ _ _ _ _ _ _ _ _ _ => Sat.error
     exact ⟨pvNode_ok hg hpr hnc hord false hpe hze, zwNode_ok hg hpr hnc hord false hze⟩
   | succ n ih =>
     exact ⟨pvNode_ok hg hpr hnc hord true ih.1 ih.2, zwNode_ok hg hpr hnc hord true ih.2⟩
